@@ -265,6 +265,19 @@ example : ∃ s, DSAReach DSA.init s ∧ ¬ s.quiescent :=
   ⟨_, DSAReach.tail (DSAReach.refl _) (DSAStep.inherit _ 0), by
     simp [DSA.quiescent, DSA.init]⟩
 
+/-- **SubtractReactive under every interleaving** of writers of the source and of the subtracted sets
+(touching the same elements), also during the creation: with the occurrence arithmetic and the
+application of its result to the result set in one critical section of the result set's mutex (the
+`deliver` step; the code does this through `s.Compute`, obligation
+`C14_skeleton_readableSet_SubtractReactive`), once the creation has finished and nothing is queued the
+result is the source minus the union of the others. -/
+theorem C14_subtract_concurrent (s : SRA) (hr : SRAReach SRA.init s) (hq : s.quiescent) (x : Nat) :
+    s.value x = s.diff x :=
+  SRA.value_eq_diff s (SRA.inv_reach _ _ SRA.inv_init hr) hq x
+
+example : ∃ s, SRAReach SRA.init s ∧ s.todo = some [2] :=
+  ⟨_, SRAReach.tail (SRAReach.tail (SRAReach.refl _) (SRAStep.create _ 0 [1, 2] rfl)) (SRAStep.subscribe _ 1 [2] rfl), rfl⟩
+
 /-- **Counter under every interleaving** of `Set` on the inputs (delivered later, in order, per
 monitor), `Monitor` and unsubscriptions: at quiescence the counter is the number of live monitors
 whose input satisfies the condition. -/
@@ -446,6 +459,23 @@ theorem C14_skeleton_NewDerivedVariable4 : skel_NewDerivedVariable4 = [
   "return", "}func", "call d.Compute", "}func", "call input3.OnUpdate", "func{", "func{",
   "call input1.Get", "call input2.Get", "call input3.Get", "return", "}func", "call d.Compute", "}func",
   "call input4.OnUpdate", "return", "}func", "return"] := by decide
+
+/-- set.Compute (set_impl.go:74) -/
+theorem C14_skeleton_set_Compute : skel_set_Compute = [
+  "lock s.mutex", "defer unlock s.mutex", "for{", "call registeredCallback.LockExecution", "if{",
+  "call registeredCallback.Invoke", "call registeredCallback.UnlockExecution", "}if", "}for", "return"] := by decide
+
+/-- readableSet.SubtractReactive (set_impl.go:204) -/
+theorem C14_skeleton_readableSet_SubtractReactive : skel_readableSet_SubtractReactive = [
+  "func{", "func{", "call setArithmetic.Add", "return", "}func", "call s.Compute", "}func",
+  "call r.OnUpdate", "for{", "func{", "func{", "call setArithmetic.Subtract", "return", "}func",
+  "call s.Compute", "}func", "call other.OnUpdate", "}for", "return"] := by decide
+
+/-- derivedSet.InheritFrom (set_impl.go:283) -/
+theorem C14_skeleton_derivedSet_InheritFrom : skel_derivedSet_InheritFrom = [
+  "for{", "func{", "call sourceElements.Apply", "helper inheritMutations", "}func",
+  "call source.OnUpdate", "func{", "helper inheritMutations", "}func", "}for", "return"] := by decide
+
 
 end Skeletons
 
